@@ -115,6 +115,7 @@ class C10(Prop):
     id = 'C10'
     k2_mask = {('arr', 'dates'), ('arr', 'next_date'), ('ind', 'stime'), ('ind', 'sst'), ('ind', 'send'), ('rec', 'stime'), ('rec', 'sst'), ('rec', 'send'), ('arr', 'created')}      # the slice of the engine state / records this property reads (DESIGN 7, table of slices)
     k2_frames = 40
+    k2_invs2 = {'svc2'}         # the stage-2 T2 invariants (Inv/AllRun2.invs2_b) this property answers for on real snapshots
     k2_invs = {'svc'}          # the T2 invariants (Inv/AllRun.invs_b) this property answers for on real snapshots
     num = 10
     regions = {'quick': [('core', 150), ('block', 60), ('routers', 40), ('renege', 50), ('preempt', 60), ('sched', 50),
